@@ -28,8 +28,10 @@ def units(tier):
     return us + [{"name": "fresh-onpolicy", "timeout": 2400}, {"name": "fresh-offpolicy", "timeout": 2400}]
 
 
-def _setup(algo_name, env_name, cfg, seed):
-    """Deterministic construction from plain values, so that a fresh process can repeat it."""
+def _setup(algo_name, env_name, cfg, seed, extra=None):
+    """Deterministic construction from plain values, so that a fresh process can repeat it.
+    `extra`: further constructor hyper-parameters (plain values)."""
+    extra = dict(extra or {})
     from jax import random as jr
     from lerax.algorithm import A2C, DQN, PPO, REINFORCE, SAC
     from lerax.policy import MLPActorCriticPolicy, MLPQPolicy, MLPSACPolicy
@@ -52,21 +54,21 @@ def _setup(algo_name, env_name, cfg, seed):
     E, S = cfg["E"], cfg["S"]
     k = jr.key(seed)
     if algo_name == "PPO":
-        algo = PPO(num_envs=E, num_steps=S, num_batches=cfg.get("nb", 2), num_epochs=2, learning_rate=1e-2)
+        algo = PPO(num_envs=E, num_steps=S, num_batches=cfg.get("nb", 2), num_epochs=2, learning_rate=1e-2, **extra)
         pol = MLPActorCriticPolicy(env, key=k, feature_size=4, feature_width=8, value_width=8, action_width=8)
     elif algo_name == "A2C":
-        algo = A2C(num_envs=E, num_steps=S, learning_rate=1e-2)
+        algo = A2C(num_envs=E, num_steps=S, learning_rate=1e-2, **extra)
         pol = MLPActorCriticPolicy(env, key=k, feature_size=4, feature_width=8, value_width=8, action_width=8)
     elif algo_name == "REINFORCE":
-        algo = REINFORCE(num_envs=E, num_steps=S, learning_rate=1e-2)
+        algo = REINFORCE(num_envs=E, num_steps=S, learning_rate=1e-2, **extra)
         pol = MLPActorCriticPolicy(env, key=k, feature_size=4, feature_width=8, value_width=8, action_width=8)
     elif algo_name == "DQN":
         algo = DQN(buffer_size=64 * E, learning_starts=4, num_envs=E, num_steps=S, batch_size=4, target_update_interval=3,
-                   learning_rate=1e-2)
+                   learning_rate=1e-2, **extra)
         pol = MLPQPolicy(env, key=k, width_size=8, epsilon=0.3)
     else:
         algo = SAC(buffer_size=64 * E, learning_starts=4, num_envs=E, num_steps=S, batch_size=4, q_width_size=8, q_depth=1,
-                   policy_lr=1e-2, q_lr=1e-2)
+                   policy_lr=1e-2, q_lr=1e-2, **extra)
         pol = MLPSACPolicy(env, key=k, feature_size=4, width_size=8)
     return env, algo, pol
 
@@ -191,7 +193,7 @@ from checks.c11 import _setup, _digest_leaves
 from jax import random as jr
 out = []
 for job in {jobs!r}:
-    env, algo, pol = _setup(job["algo"], job["env"], job["cfg"], job["seed"])
+    env, algo, pol = _setup(job["algo"], job["env"], job["cfg"], job["seed"], job.get("extra"))
     p = algo.learn(env, pol, job["T"], key=jr.key(job["key"]))
     out.append(_digest_leaves(p))
 print("DIGESTS " + json.dumps(out))
@@ -205,11 +207,20 @@ def _run_fresh(ctx, algos):
     for a in algos:
         for env_name in (_envs_for(a) if not ctx.quick else _envs_for(a)[:1]):
             cfg = {"E": int(ctx.rng.integers(1, 3)), "S": int(ctx.rng.integers(2, 6))}
+            extra = ({"tau": 0.05, "gamma": 0.95} if a == "SAC" else
+                     {"max_grad_norm": float(ctx.rng.choice([5.0, 50.0])), "gamma": 0.95})
             jobs.append({"algo": a, "env": env_name, "cfg": cfg, "seed": int(ctx.rng.integers(0, 10**6)),
-                         "T": 5 * cfg["E"] * cfg["S"], "key": int(ctx.rng.integers(0, 10**6))})
+                         "T": 5 * cfg["E"] * cfg["S"], "key": int(ctx.rng.integers(0, 10**6)), "extra": extra})
     mine = []
     for job in jobs:
-        env, algo, pol = _setup(job["algo"], job["env"], job["cfg"], job["seed"])
+        # this session has a history the fresh one lacks: before every job an algorithm object of the same class,
+        # same learning rate and other hyper-parameters is built and trained (training is a function of its inputs,
+        # not of what the session did before)
+        decoy = ({"tau": 0.5, "gamma": 0.5} if job["algo"] == "SAC" else {"max_grad_norm": 0.01, "gamma": 0.5})
+        env, algo, pol = _setup(job["algo"], job["env"], job["cfg"], job["seed"] + 1, decoy)
+        algo.learn(env, pol, 2 * job["cfg"]["E"] * job["cfg"]["S"], key=jr.key(job["key"] + 1))
+        ctx.monitor("decoy_runs_before_job")
+        env, algo, pol = _setup(job["algo"], job["env"], job["cfg"], job["seed"], job["extra"])
         mine.append(_digest_leaves(algo.learn(env, pol, job["T"], key=jr.key(job["key"]))))
     code = _CHILD.format(path=[p for p in sys.path if p], jobs=jobs)
     env = dict(os.environ)
